@@ -1114,6 +1114,44 @@ func (te *TemplateEngine) cloneParagraphProperties(source *ParagraphProperties) 
 		}
 	}
 
+	// 复制段落边框
+	if source.ParagraphBorder != nil {
+		border := *source.ParagraphBorder
+		for _, side := range []**ParagraphBorderLine{&border.Top, &border.Left, &border.Bottom, &border.Right} {
+			if *side != nil {
+				line := **side
+				*side = &line
+			}
+		}
+		props.ParagraphBorder = &border
+	}
+
+	// 复制网格对齐、分页控制和大纲级别
+	if source.SnapToGrid != nil {
+		value := *source.SnapToGrid
+		props.SnapToGrid = &value
+	}
+	if source.KeepNext != nil {
+		value := *source.KeepNext
+		props.KeepNext = &value
+	}
+	if source.KeepLines != nil {
+		value := *source.KeepLines
+		props.KeepLines = &value
+	}
+	if source.PageBreakBefore != nil {
+		value := *source.PageBreakBefore
+		props.PageBreakBefore = &value
+	}
+	if source.WidowControl != nil {
+		value := *source.WidowControl
+		props.WidowControl = &value
+	}
+	if source.OutlineLevel != nil {
+		value := *source.OutlineLevel
+		props.OutlineLevel = &value
+	}
+
 	return props
 }
 
@@ -1122,6 +1160,12 @@ func (te *TemplateEngine) cloneRun(source *Run) Run {
 	newRun := Run{
 		Properties: te.cloneRunProperties(source.Properties),
 		Text:       Text{Content: source.Text.Content, Space: source.Text.Space},
+	}
+
+	// 复制分页符/换行符（如果有）
+	if source.Break != nil {
+		value := *source.Break
+		newRun.Break = &value
 	}
 
 	// 复制图像（如果有）
